@@ -882,6 +882,11 @@ restart:
 					}
 				}
 				if grew {
+					// the execution is a real one: judge it before restarting with the larger site
+					// set (a race on lazily initialised state shows only in the first, cold, run)
+					if cfg.Check != nil {
+						cfg.Check(x)
+					}
 					return
 				}
 			}
